@@ -46,11 +46,11 @@ def shapes(n, tier):
     return res
 
 
-def run_op(prog, n, sup, closed, op, a, b):
+def run_op(prog, n, sup, closed, op, a, b, remote=None):
     """returns (I, world, list of (outcome, expectations))"""
     I = world.new_interp(prog)
     st = State()
-    w = world.World(prog, I, st, n)
+    w = world.World(prog, I, st, n, remote=remote)
     w.set_shape(sup, closed)
     pre = w.snapshot(st)
     body = prog.find_fn({'link': LINK, 'unlink': UNLINK, 'take': TAKE, 'terminate': TERMINATE}[op])
@@ -82,19 +82,19 @@ def expected_after_link(pre, n, c, s):
     return {'children': ch, 'supervisor': sp}
 
 
-def check_shape(ctx, prog, n, sup, closed, hits):
-    tag0 = 'sup=%s closed=%s' % (''.join('-' if s is None else str(s) for s in sup), ''.join(map(str, closed)) or '-')
+def check_shape(ctx, prog, n, sup, closed, hits, remote=None):
+    tag0 = 'sup=%s closed=%s%s' % (''.join('-' if s is None else str(s) for s in sup), ''.join(map(str, closed)) or '-', ' remote=%s' % remote if remote else '')
     for op, pairs in (('link', [(a, b) for a in range(n) for b in range(n) if a != b]), ('unlink', [(a, b) for a in range(n) for b in range(n) if a != b]),
                       ('take', [(a, None) for a in range(n)]), ('terminate', [(a, None) for a in range(n)])):
         for (a, b) in pairs:
-            I, w, pre, outs, body = run_op(prog, n, sup, closed, op, a, b)
+            I, w, pre, outs, body = run_op(prog, n, sup, closed, op, a, b, remote)
             ctx.absorb(I)
             ctx.paths += len(outs)
             tag = '%s %s(%s%s)' % (tag0, op, a, '' if b is None else ',%d' % b)
             s0 = [x.t for x in w.status0]
             for k, o in enumerate(outs):
                 name = '%s.path%d' % (tag, k)
-                rp = {'n': n, 'sup': sup, 'closed': list(closed), 'op': op, 'a': a, 'b': b}
+                rp = {'n': n, 'sup': sup, 'closed': list(closed), 'op': op, 'a': a, 'b': b, 'remote': {str(k_): v_ for k_, v_ in remote.items()} if remote else None}
                 on_cex = (lambda m, rp=rp, w=w: cex_native(m, rp, w))
                 if o.kind != 'ret':
                     ctx.prove(name + '.no_panic_no_deadlock', o.st.pc, z3.BoolVal(False), group='C05.%s.completes' % op, key='C05.%s.completes' % op, on_cex=on_cex)
@@ -171,6 +171,9 @@ def job(sub, n, chunk, tier):
     hits = {'link_relinks': 0, 'link_refused': 0, 'unlink_effective': 0, 'take_nonempty': 0, 'terminate_depth2': 0, 'under_lock': 0}
     for (sup, closed) in chunk:
         check_shape(sub, prog, n, sup, closed, hits)
+        # the same forest with cell 2 carrying a remote id whose pid equals cell 1's (a supervisor holding a local child next to the proxy of a remote actor)
+        if world.remote_ids_available(prog):
+            check_shape(sub, prog, n, sup, closed, hits, remote={2: 1})
     sub.extra['hits'] = hits
 
 
